@@ -39,6 +39,9 @@ def gen(rnd, depth: int, exponent: bool = False):
         if l[0] == "int" and rr[0] == "int":
             l = ("L", l[1])          # two plain ints would be folded by Python itself
         return ("bin", op, l, rr)
+    if r < 0.84 and depth >= 2:
+        # ONE sub-expression object used as both operands of an operator (grid = h // p; grid * grid)
+        return ("share", rnd.choice(["+", "-", "*", "//"]), gen(rnd, depth - 1))   # not **: s ** s is astronomically large
     if r < 0.87:
         return ("isqrt", gen(rnd, depth - 1))
     if r < 0.95:
@@ -57,6 +60,11 @@ def py_src(t) -> str:
         return f"dltype.VariableAxis({t[1]!r})"
     if k == "bin":
         return f"({py_src(t[2])} {t[1]} {py_src(t[3])})"
+    if k == "share":
+        inner = py_src(t[2])
+        if t[2][0] == "int":
+            inner = f"dltype.LiteralAxis({t[2][1]})"      # two plain ints would be folded by Python itself
+        return f"(lambda _s: (_s {t[1]} _s))({inner})"
     if k == "isqrt":
         return f"dltype.ISqrt({py_src(t[1])})"
     if k == "fun2":
@@ -77,6 +85,8 @@ def int_eval(t, sc):
         return f(int_eval(t[2], sc), int_eval(t[3], sc))
     if k == "group":
         return int_eval(t[1], sc)
+    if k == "share":
+        t = ("bin", t[1], t[2], t[2])
     a, b = int_eval(t[2], sc), int_eval(t[3], sc)
     o = t[1]
     if o == "+":
@@ -98,6 +108,8 @@ def sym_sx(t) -> str:
         return f"(lit {sx_int(t[1])})"
     if k == "var":
         return f"(var {sx_str(t[1])})"
+    if k == "share":
+        return f"(bin {OPS[t[1]]} {sym_sx(t[2])} {sym_sx(t[2])})"
     if k == "bin":
         return f"(bin {OPS[t[1]]} {sym_sx(t[2])} {sym_sx(t[3])})"
     if k == "isqrt":
@@ -281,7 +293,10 @@ def run_shapes(tier: str, rnd, rep: Report, model: Model) -> None:
             rep.disagreement({"what": "model printer and str(Shape[...]) differ", "model_text": mtext, **rec})
         if "annot" in res:
             rep.count("shape_annotation_" + res["annot"])
-            rep.violation({"what": f"TensorType[Shape[...]] raised {res['annot']} for a well-formed shape", **rec})
+            if neg or ans.startswith("PRINT_ERR"):
+                rep.count("shape_constant_without_integer_value")
+            else:
+                rep.violation({"what": f"TensorType[Shape[...]] raised {res['annot']} for a well-formed shape", **rec})
             continue
         want_mi = next((i for i, a in enumerate(ax) if a[0] in ("anon", "star")), None)
         want_mn = next((a[1] for a in ax if a[0] == "star"), None)
@@ -309,6 +324,18 @@ def run(tier: str, seed: int, rep: Report, model: Model) -> dict:
     tasks = []
     for t in trees:
         scopes = [{x: rnd.choice([0, 1, 2, 3, 5, 9]) for x in NAMES} for _ in range(3)]
+
+        def cheap(sc) -> bool:
+            try:
+                int_eval(t, sc)
+            except OverflowError:
+                return False      # a power tower: the implementation would compute an astronomically large number (DESIGN 10)
+            except Exception:  # noqa: BLE001
+                pass
+            return True
+
+        scopes = [sc if cheap(sc) else {x: 2 for x in NAMES} for sc in scopes]
+        scopes = [sc for sc in scopes if cheap(sc)] or [{x: 1 for x in NAMES}]
         tasks.append({"src": py_src(t), "scopes": scopes})
     answers = model.ask_many([f"(sym {sym_sx(t)} ())" for t in trees])
     worker = ImplWorker("harness.props.c18")
@@ -337,7 +364,10 @@ def run(tier: str, seed: int, rep: Report, model: Model) -> dict:
             rep.disagreement({"what": "model printer and str(Shape[...]) differ", "model_text": mtext, **rec})
         if "annot" in res:
             rep.count("annotation_" + res["annot"])
-            rep.violation({"what": f"TensorType[Shape[...]] raised {res['annot']} for a printable tree", **rec})
+            if neg or ans.startswith("PRINT_ERR"):
+                rep.count("constant_without_integer_value")   # e.g. 2 ** -2 folded to 0.25: outside the integer expressions of the property
+            else:
+                rep.violation({"what": f"TensorType[Shape[...]] raised {res['annot']} for a printable tree", **rec})
             continue
         ok = True
         for sc, got in zip(task["scopes"], res["values"]):
